@@ -9,6 +9,11 @@
      * step-size update (eq. 40/41)     -> [sigma_update]   (eigenvectors B are an explicit input)
      * elitist acceptance of ElitistCMA::step -> [classify], [elitist_step]
      * PenalizingEvaluator::operator() -> [penalized_eval]
+     * remora cholesky_decomposition::update (rank-one update of a Cholesky factor, incl. its exception exit) -> [chol_update]
+     * CMSA::updatePopulation (mean, factor update = one scaling + mu rank-one updates, sigma)  -> [cmsa_update]
+     * CMAChromosome::updateAsOffspring / updateAsParent (guarded active update) / roundUpdate, as driven by
+       ElitistCMA::step                  -> [chrom_offspring], [chrom_parent], [active_rate], [ecma_chrom_step]
+     * VDCMA::updateStrategyParameters, createSample, the covariance D(I+vv^T)D  -> [vd_update], [vd_sample], [vd_cov]
    Vectors are lists, matrices are lists of rows.  The float instantiation is built by the OCaml
    driver (ocaml/c11_driver.ml), the Q instantiation by C11Proofs.v. *)
 From Coq Require Import List Arith Bool.
@@ -378,11 +383,20 @@ Definition vd_D_update (D s : vec) : vec := vadd D (vmul D s).
 (* v = vn * normv + meanT / normv *)
 Definition vd_v_update (vn : vec) (normv : A) (t : vec) : vec := vadd (vscale normv vn) (map (fun a => a / normv) t).
 
-(* the covariance the sampler of VDCMA realises:  C = D (I + v v^T) D *)
-Definition vd_cov (D v : vec) : mat :=
-  map2 (fun di row => map2 (fun dj e => di * e * dj) D row)
-       D (map2 (fun (i : nat) vi => map2 (fun (j : nat) vj => (if Nat.eqb i j then 1 else 0) + vi * vj) (seq 0 (length v)) v)
-               (seq 0 (length v)) v).
+(* VDCMA::createSample as coded, [z] the standard normal draws:
+   y = z; a = sqrt(1 + normv^2) - 1; a *= <y, vn>; y += a * vn; x = mean + sigma * D * y.   Returns (x, y). *)
+Definition vd_sample (mean : vec) (sigma : A) (D vn : vec) (normv : A) (z : vec) : vec * vec :=
+  let a := (o_sqrt O (1 + normv * normv) - 1) * dot z vn in
+  let y := vadd z (vscale a vn) in
+  (vadd mean (vmul (vscale sigma D) y), y).
+
+(* the covariance this sampler realises (up to sigma^2):  C = D (I + v v^T) D = diag(D)^2 + (D*v)(D*v)^T,  v = normv * vn *)
+Fixpoint diagm (d : vec) : mat :=
+  match d with
+  | [] => []
+  | a :: t => (a :: vzero (length t)) :: map (cons 0) (diagm t)
+  end.
+Definition vd_cov (D v : vec) : mat := madd (diagm (vmul D D)) (outer (vmul D v) (vmul D v)).
 
 (* offspring payload: (search point x, chromosome y); [k] reuses the CMA constants record *)
 Definition vd_update (k : cma_consts) (n mu : nat) (ws : list A) (st : vd_state)
